@@ -92,6 +92,11 @@ impl Out {
             self.samples.push(format!("{} => {}", line, imp));
         }
     }
+    /// Names the case about to be executed, so that if the implementation aborts the process (a panic inside a
+    /// destructor that runs during an unwind, a stack overflow) the driver can still report the concrete input.
+    pub fn inflight(&mut self, case: &Sx) {
+        let _ = std::fs::write(self.dir.join(format!("inflight{}.sx", self.suffix)), case.to_string());
+    }
     pub fn count(&mut self, key: &str) {
         *self.dist.entry(key.to_string()).or_insert(0) += 1;
     }
@@ -104,6 +109,7 @@ impl Out {
         }
     }
     pub fn finish(mut self, rule: &str) {
+        let _ = std::fs::remove_file(self.dir.join(format!("inflight{}.sx", self.suffix)));
         self.cases.flush().unwrap();
         self.imp.flush().unwrap();
         let meta = serde_json::json!({
